@@ -41,3 +41,25 @@ Theorem C01_both_is_limit : forall Om (SB : nat -> Z -> R) rad gamma lam LA LB p
   rolled_up_special ROps PI Om SB rad lam fa fb (0%R, 0%R, 0%R) mu = t2_both ROps PI Om gamma lam LA LB pA pB pU fa fb mu.
 Proof. exact both_is_limit. Qed.
 Print Assumptions C01_both_is_limit.
+
+(* The both-on-centre closed form (ECPIntegral::type2, special case A = B = C): its radial factor 0.5 * GAMMA[N] * FAST_POW[N+1](1/sqrt(p))
+   IS the Gaussian moment int_0^inf r^N exp(-p r^2) dr, for every N and every p > 0 (Base/GaussMoment.v): the recurrence
+   I_{n+2} = (n+1)/(2p) I_n by a machine-checked integration by parts whose boundary term is proved to vanish (Base/GaussDecay.v), the odd
+   anchor I_1 = 1/(2p) proved from the antiderivative; what remains assumed is that the integrals exist (they do: n >= 0) and the Gauss
+   integral I_0 = sqrt(pi/p)/2.  gamma_half n = Gamma((n+1)/2) is the exact specification of the GAMMA table, which a per-run obligation
+   compares with the 30 literals of the source (T-tab, Interval). *)
+From Coquelicot Require Import Coquelicot.
+From LV Require Import Base.Tables Base.GaussMoment.
+Theorem C01_gamma_half_values : forall k, gamma_half (2 * k + 1) = INR (fact k) /\ gamma_half (2 * k) = (sqrt PI * odd_prod k / 2 ^ k)%R.
+Proof. intros k. split; [apply gamma_half_odd | apply gamma_half_even]. Qed.
+Print Assumptions C01_gamma_half_values.
+Theorem C01_gaussian_moment_recurrence : forall p : R, (0 < p)%R -> forall Im : nat -> R,
+  (forall n, is_RInt_gen (gint p n) (at_point 0%R) (Rbar_locally p_infty) (Im n)) ->
+  forall n, Im (S (S n)) = (INR (S n) / (2 * p) * Im n)%R.
+Proof. intros p Hp Im HI. exact (moment_rec p Hp Im HI (gbnd_decay p Hp)). Qed.
+Print Assumptions C01_gaussian_moment_recurrence.
+Theorem C01_gaussian_moments_from_the_gauss_integral : forall p : R, (0 < p)%R -> forall Im : nat -> R,
+  (forall n, is_RInt_gen (gint p n) (at_point 0%R) (Rbar_locally p_infty) (Im n)) ->
+  Im 0%nat = (sqrt (PI / p) / 2)%R -> forall n, Im n = (gamma_half n * orp p ^ S n / 2)%R.
+Proof. exact moment_closed_from_gauss. Qed.
+Print Assumptions C01_gaussian_moments_from_the_gauss_integral.
